@@ -6,7 +6,7 @@ Engine `route`: replays a child-process logging session on the routing + pipelin
 
   #case <id> threads=<k>
   appender <name> <cap> <block|drop>                       (declaration order = appender number)
-  root <level> <a,b|->
+  root <level> <a,b|-> [add|nonadd]                        (root's additive flag is ignored by the code)
   logger <name|~> <level> <add|nonadd> <a,b|->
   emit <thread> <seq> <log|tracing> <target|~> <level> => <a,b|->     appenders whose stream got it
   shutdown <shutdown|drop> => ok
@@ -214,6 +214,10 @@ def step (s : St) (op res : List String) : Except String (St × List String) :=
   | ["root", lvl, apps] =>
     match level? lvl, apps? s apps with
     | some l, some as => .ok ({ s with rootLevel := l, rootApps := as }, [])
+    | _, _ => .error "bad-op root"
+  | ["root", lvl, apps, _additiveIgnored] =>
+    match level? lvl, apps? s apps with
+    | some l, some as => .ok ({ s with rootLevel := l, rootApps := as }, ["cfg-root-additive-flag-given"])
     | _, _ => .error "bad-op root"
   | ["logger", n, lvl, add, apps] =>
     match level? lvl, apps? s apps with
